@@ -43,6 +43,8 @@ def key_of(row, off=0):
         return "tmDateIsValid:m=%d:d=%d" % (off // 33, off % 33)
     if op == "win":
         f = win_part(off)
+        if f == "priNextPrime" and row.get("nn", 1) > 1 and row.get("bc", 0) > 0:
+            return "priNextPrime:leading-zero-words:factor-base-prime-skipped"
         extra = ""
         if f in ("priIsPrime", "priNextPrime"):
             extra = ":n=%d" % row.get("nn", 0)
@@ -57,6 +59,14 @@ def key_of(row, off=0):
         return "%s%s:%s" % (row.get("scheme"), op[0].upper() + op[1:], cls)
     if op == "onA":
         return "ecpIsOnA:%s" % cls
+    if op == "smooth" and row.get("hang") and G.le(row.get("a", [0])) == 0:
+        return "priIsSmooth:a=0:hang"
+    if op == "nextPrime" and row.get("n", 0) > 1 and row.get("base", 0) > 0 and G.le(row.get("a", [0])) < 10000:
+        return "priNextPrime:leading-zero-words:factor-base-prime-skipped"
+    if op == "stb99SeedVal" and cls.startswith("di0=") and row.get("rc") == 0:
+        return "stb99SeedVal:di0>7l/8-r:accepted"
+    if op == "stb99SeedVal" and cls.startswith("ri:") and row.get("rc") != 0:
+        return "stb99SeedVal:ri-chain:5y/4<x<=5y/4+4:rejected"
     if op in ("smooth", "sieved"):
         a = G.le(row.get("a", [0]))
         return "priIs%s:a=%s:n=%d:bc=%d%s" % (op.capitalize(), a if a < 1000 else "big", row.get("n", 0), row.get("base", 0), ":hang" if row.get("hang") else "")
@@ -122,8 +132,8 @@ class Judge:
                 return
             for k, (row, f) in enumerate(flip, 1):
                 if k in bad:
-                    ctx.note_inconclusive("%s: evidence of line not accepted by TLC either way (generator / specification fault): %s"
-                                          % (what, json.dumps(brief(row))[:400]))
+                    ctx.note_inconclusive("%s: evidence of line %s not accepted by TLC either way (generator / specification fault): %s"
+                                          % (what, key_of(row), json.dumps(brief(row))[:300]))
                 else:
                     self.violate(row, 1, 0, what)
 
@@ -241,9 +251,7 @@ def run(ctx):
     if r.rc != 0 or failed or r.distinct < 3:
         ctx.note_inconclusive("specification anchors fail (specification error, no verdict): %s %s" % (failed, (r.violation or r.error or "")[:300]))
         return
-    # ASan + UBSan build with exact-size buffers; clang's pointer-overflow check is switched off: obj.c:75 computes
-    # (null pointer + 0) while relocating object tables, which stops every EC scheme at once (reported; C07's subject)
-    drv = vlib.harness("drv_valid", ["drv_valid.c"], "asan", lib_extra=["-fno-sanitize=pointer-overflow"])
+    drv = vlib.harness("drv_valid", ["drv_valid.c"], "asan")          # ASan + UBSan, exact-size buffers
     env = {"VERIF_SEED": ctx.seed}
     # (1) record direction
     rec = ctx.path("record.ndjson")
@@ -281,18 +289,19 @@ def run(ctx):
         big = bits > 600
         accept[(sch, ps.name)] = ps
         if sch == "dstu":
-            cmds.append(G.pval_cmd(ps, "hold", "ALL", "std-without-base-point"))       # no base point: must be rejected? (not judged)
-            cmds.pop()
+            # the standard curves come without a base point: it is generated as dstu.h prescribes (dstuPointGen, seeded)
+            g = ps.copy()
+            for f in ("Px", "Py"):
+                g.v.pop(f)
+            cmds.append("pval " + " ".join(a for a in g.args_without(("Px", "Py")) + ["expect=hold", "cond=ALL", "cls=std+generated-point",
+                                                                                     "set=" + ps.name, "gen=%d" % (int(ctx.seed) + 7)]))
             cmds += G.dstu_perturbations(ps, rng, tier)
             continue
         cmds.append(G.pval_cmd(ps, "hold", "ALL", "std"))
         if sch in ("bign", "bign96", "g12s"):
-            cmds += G.ec_perturbations(ps, rng, tier, aid if sch != "g12s" else None)
+            cmds += G.ec_perturbations(ps, rng, tier, aid if sch != "g12s" else None, heavy=(bits <= 400 or not ctx.quick))
         else:
-            if ctx.quick and big and ps.v["l"] > 1100:
-                cmds += G.dl_perturbations(ps, rng, tier)[:8]
-            else:
-                cmds += G.dl_perturbations(ps, rng, tier)
+            cmds += G.dl_perturbations(ps, rng, tier, heavy=(bits <= 700 if ctx.quick else bits <= 1100))
         if sch in ("bign", "bign96"):
             heavy = (sch == "bign96") or (not ctx.quick and bits <= 256)
             cmds += G.key_cmds(ps, rng, tier, heavy)
@@ -319,7 +328,7 @@ def run(ctx):
     for row in rows2:
         if row.get("op") == "pval" and row.get("cond") == "ALL":
             ps = accept.get((row["scheme"], row.get("set")))
-            bits = ps.v["p"].bit_length() if ps else 0
+            bits = (ps.v["f"][0] if row["scheme"] == "dstu" else ps.v["p"].bit_length()) if ps else 0
             for c in CONDS[row["scheme"]]:
                 x = dict(row); x["cond"] = c
                 if not cond_affordable(row["scheme"], c, bits, ctx.quick):
